@@ -39,7 +39,7 @@ META = {
     "rule": "3-10 UTMI packets (1-70 bytes; first byte = PID-like or arbitrary) per run, op mode 0/2 changing between packets, "
             "per-run NXT accept delays (0-6) and throttle patterns, DIR take-overs triggered k cycles after the TXCMD appears",
 }
-TIERS = {"quick": {"runs": 8000, "wall": 70}, "thorough": {"runs": 20000, "wall": 900}}
+TIERS = {"quick": {"runs": 16000, "wall": 70}, "thorough": {"runs": 20000, "wall": 900}}
 
 PIDS = [0xD2, 0x5A, 0x1E, 0xC3, 0x4B, 0x69, 0xE1, 0x2D, 0xA5, 0x96]
 
